@@ -125,6 +125,10 @@ def spec_call(engine, st, name, node):
         dflt = engine.eval(st, node.args[2])
         mp = as_map(d)
         return Ty.ite(mp.c[0][k], engine.mapval(mp, k), engine.coerce(dflt, mp.t.v))
+    if name == "close":
+        # real equality for the prover; relative tolerance in the run-time monitor
+        a, b = [engine.eval(st, x) for x in node.args]
+        return Ty.mk_bool(engine.equal(st, a, b))
     if name == "is_neginf":
         v = engine.eval(st, node.args[0])
         if isinstance(v, V) and isinstance(v.t, Ty.Opt):
@@ -421,6 +425,12 @@ def builtin_call(engine, st, name, node):
         ts = [engine.num(a) for a in args]
         if real:
             ts = [z3.ToReal(x) if x.sort() == Ty.IntS else x for x in ts]
+        if getattr(engine.contract, "split_minmax", False) and not engine.spec_mode and len(ts) == 2:
+            # case split instead of an if-then-else term (keeps nonlinear goals simple)
+            c = ts[0] >= ts[1]
+            b = engine.concrete_bool(st, c)
+            pick = (ts[0] if b else ts[1]) if name == "max" else (ts[1] if b else ts[0])
+            return V(Real if real else Int, [pick])
         r = ts[0]
         for x in ts[1:]:
             r = z3.If(x < r, x, r) if name == "min" else z3.If(x > r, x, r)
